@@ -19,7 +19,8 @@ MODULES = {
         "rescale", "exp_on_interval_between_negative_one_quarter_and_0_excl", "exp_on_negative_values",
         "multiply_by_quantized_multiplier"], {}),
     "numeric_util": ("ethosu/vela/numeric_util.py", "SrcNumericUtil", [
-        "round_up", "round_down", "round_up_divide", "overlaps"], {}),
+        "round_up", "round_down", "round_up_divide", "overlaps", "round_up_to_int", "full_shape"],
+        {"full_shape": {"params": {"shape": L(N)}}}),
     "driver_actions": ("ethosu/vela/driver_actions.py", "SrcDriverActions", [
         "make_da_tag", "emit_cmd_stream_header", "emit_reg_read", "emit_dump_shram"],
         {"emit_cmd_stream_header": {"params": {"data": L(N)}},
